@@ -34,6 +34,9 @@ func (f *Frame) execValue(n *xnode, st *execState, ins ssa.Value) Val {
 		case token.XOR:
 			return Scalar{tb.BVNot(xv.(Scalar).T)}
 		case token.MUL:
+			if fr, ok := xv.(FieldRefV); ok {
+				return getPath(st.env[unpackKey{fr.o}], fr.path)
+			}
 			addr := xv.(Scalar).T
 			f.nilCheck(st, x.X, addr, x.Pos())
 			v := e.load(st.mem, addr, x.Type())
@@ -69,6 +72,14 @@ func (f *Frame) execValue(n *xnode, st *execState, ins ssa.Value) Val {
 		p := f.allocate(st, hint, c64(uint64(sz)), true)
 		return Scalar{p}
 	case *ssa.FieldAddr:
+		if o, ok := f.unpackedAt(f.operand(st.env, x.X)); ok {
+			stt := o.et.Underlying().(*types.Struct)
+			return FieldRefV{o: o, path: []int{x.Field}, typ: stt.Field(x.Field).Type()}
+		}
+		if fr, ok := f.operand(st.env, x.X).(FieldRefV); ok {
+			stt := fr.typ.Underlying().(*types.Struct)
+			return FieldRefV{o: fr.o, path: append(append([]int{}, fr.path...), x.Field), typ: stt.Field(x.Field).Type()}
+		}
 		base := f.operand(st.env, x.X).(Scalar).T
 		f.nilCheck(st, x.X, base, x.Pos())
 		stt := x.X.Type().Underlying().(*types.Pointer).Elem().Underlying().(*types.Struct)
